@@ -54,6 +54,8 @@ const (
 	opTaskInfo
 	opProbe
 	opDeadline
+	opFSRename
+	opFSRemove
 )
 
 // msg is a request from a task to the kernel.
